@@ -38,7 +38,7 @@ func genH(t *rapid.T) HCase {
 		k := rapid.IntRange(5, 9).Draw(t, fmt.Sprintf("p%d/len", i))
 		for j := 0; j < k; j++ {
 			if p.Type == "http" {
-				p.Script = append(p.Script, rapid.SampledFrom([]string{"ok", "ok", "ok", "500", "404", "timeout", "reset"}).Draw(t, fmt.Sprintf("p%d/s%d", i, j)))
+				p.Script = append(p.Script, rapid.SampledFrom([]string{"ok", "ok", "ok", "500", "404", "timeout", "503"}).Draw(t, fmt.Sprintf("p%d/s%d", i, j)))
 			} else {
 				p.Script = append(p.Script, rapid.SampledFrom([]string{"up", "up", "down"}).Draw(t, fmt.Sprintf("p%d/s%d", i, j)))
 			}
@@ -120,15 +120,17 @@ func runH(c HCase) error {
 					rec(false)
 					w.WriteHeader(404)
 				case "timeout":
+					// the client gives up after its 1 s timeout: that is when this probe counts as failed
+					mu.Lock()
+					probes[i] = append(probes[i], probe{st, st + time.Second, false})
+					mu.Unlock()
 					time.Sleep(1300 * time.Millisecond)
-					rec(false)
 					w.WriteHeader(200)
-				case "reset":
+				case "503":
+					// (a connection reset is not used as an outcome: Go's HTTP client transparently
+					// retries an idempotent request on a broken connection, so one probe would be logged twice)
 					rec(false)
-					if hj, ok := w.(http.Hijacker); ok {
-						cn, _, _ := hj.Hijack()
-						cn.Close()
-					}
+					w.WriteHeader(503)
 				}
 			})}
 			ln, e := net.Listen("tcp", fmt.Sprintf("127.0.0.1:%d", port))
